@@ -53,6 +53,7 @@ type FuncContract struct {
 	SweepTags []string
 	Requires  []*Clause
 	TrustedFrame bool // frame assumed, body verified for everything else
+	NoPanic   bool // no-panic (safety) obligations in addition to the functional clauses and the frame
 	Spawns    bool // starts its function argument in another goroutine (it may run at any later time)
 	Entry     []*Clause // assumed at entry, not imposed on callers (API entry points); listed as assumptions
 	Ensures   []*Clause
@@ -120,6 +121,7 @@ type Contracts struct {
 	StateFields []*StateFields
 	Callers  []*CallersRule
 	MapRanges []*CallersRule
+	SpawnedWrites []*CallersRule
 	pureMemo map[*ssa.Function]int
 	Defines  map[string]string // $NAME macros (textual)
 	Files   []string
@@ -130,8 +132,8 @@ var tagRe = regexp.MustCompile(`\s*\[((?:C\d+)(?:\s*,\s*C\d+)*)\]\s*$`)
 
 var clauseKeywords = map[string]bool{
 	"func": true, "requires": true, "ensures": true, "modifies": true, "pure": true, "trusted": true,
-	"loop": true, "site": true, "ghost": true, "nonnil": true, "guarded_by": true, "entry": true, "state_fields": true, "callers": true, "map_ranges": true, "nilable": true, "fields_copied": true,
-	"sweep": true, "package": true, "axiom": true, "allow": true, "witness": true, "nosafety": true, "spawns": true,
+	"loop": true, "site": true, "ghost": true, "nonnil": true, "guarded_by": true, "entry": true, "state_fields": true, "callers": true, "map_ranges": true, "spawned_writes": true, "nilable": true, "fields_copied": true,
+	"sweep": true, "package": true, "axiom": true, "allow": true, "witness": true, "nosafety": true, "spawns": true, "nopanic": true,
 	"deferrule": true, "skipfield": true, "preserves": true, "typeinv": true, "updates": true, "deterministic": true, "init": true, "nosite": true, "blocks": true, "define": true, "fnspec": true, "result": true, "param": true, "implements": true,
 }
 
@@ -475,6 +477,15 @@ func (cs *Contracts) parseFile(path, pkg string, external bool) error {
 			} else {
 				cur.Trusted = true
 			}
+		case "nopanic":
+			if cur == nil {
+				return fail("nopanic outside func")
+			}
+			cur.NoPanic = true
+			cur.SweepTags = append(cur.SweepTags, tags...)
+			for _, t := range tags {
+				cur.Tags[t] = true
+			}
 		case "spawns":
 			if cur == nil {
 				return fail("spawns outside func")
@@ -636,6 +647,15 @@ func (cs *Contracts) parseFile(path, pkg string, external bool) error {
 				g.Except = w[3:]
 			}
 			cs.Guarded = append(cs.Guarded, g)
+		case "spawned_writes":
+			_, tail, _ := strings.Cut(rest, ":")
+			r := &CallersRule{Tags: tags, File: path, Line: rc.line}
+			for _, x := range strings.Fields(tail) {
+				if x != "except" {
+					r.Allowed = append(r.Allowed, x)
+				}
+			}
+			cs.SpawnedWrites = append(cs.SpawnedWrites, r)
 		case "map_ranges":
 			_, tail, ok := strings.Cut(rest, ":")
 			if !ok || len(strings.Fields(tail)) == 0 {
